@@ -453,6 +453,7 @@ func checkCountSampled(sb *sigbits.SigBits, keys []string, wd []int32, s, e, m i
 			return vk.Failf("count", "CountPrefixes(s=%d,e=%d,m=%d) on %s: counter %d (prefix length %d bits) = %d, want %d", s, e, m, show(), i, int(m0)+i, gc[i], want)
 		}
 	}
+	noteResult(s, e, m, gm, gc)
 	return nil
 }
 
